@@ -1,7 +1,7 @@
 """Channel-level checks (Uni / Multi): scenario builders and the judge for the L1 trace specs Trace_AbsUni / Trace_AbsMulti."""
 import json, os
 from .core import *
-from .queues import op, dfs, rnd, subtrace, sample_run, KF_SPURIOUS_EMPTY
+from .queues import op, dfs, rnd, subtrace, sample_run, KF_SPURIOUS_EMPTY, kf_spurious_empty_applies
 
 UNI_KINDS = ["uni_move_atomic", "uni_move_fullsync", "uni_move_crossbeam", "uni_zc_atomic", "uni_zc_fullsync"]
 UNI_RESERVE = ["uni_move_atomic", "uni_zc_atomic", "uni_zc_fullsync"]
@@ -116,6 +116,8 @@ def conform_chan(check, name, scns, module, consts, parallel=8, relax_kf=False, 
         for e in v2["errors"]:
             check.tool_errors.append("relaxed re-validation %s: %s" % (name, e))
         still = set((x["run"]["scn"], x["run"]["run"]) for x in v2["violations"]) | set((x["run"]["scn"], x["run"]["run"]) for x in v2["mismatches"])
+        sut_of = {s_["id"]: s_ for s_ in scns}
+        still |= set(k for k in bad if not kf_spurious_empty_applies(sut_of.get(k[0], {})))
         for k, x in bad.items():
             if k not in still:
                 check.known_finding(KF_SPURIOUS_EMPTY, "AtomicMove: a dequeue answers 'empty' although an item published before its call is still queued, because the item's sequence number was claimed by another dequeue that is itself giving up")
